@@ -100,6 +100,9 @@ pub enum TryKind {
     U8U64,
     U32U32,
     A32U8,
+    U8U8,
+    B5U8,
+    U16U8,
 }
 
 pub struct TryInfo {
@@ -119,13 +122,16 @@ fn try_info<T: Copy, E: Copy>(v: T) -> TryInfo {
 }
 
 impl TryKind {
-    pub const ALL: [TryKind; 3] = [TryKind::U64U8, TryKind::U8U64, TryKind::A32U8];
+    pub const ALL: [TryKind; 7] = [TryKind::U64U8, TryKind::U8U64, TryKind::A32U8, TryKind::U32U32, TryKind::U8U8, TryKind::B5U8, TryKind::U16U8];
     pub fn info(self) -> TryInfo {
         match self {
             TryKind::U64U8 => try_info::<u64, u8>(0),
             TryKind::U8U64 => try_info::<u8, u64>(0),
             TryKind::U32U32 => try_info::<u32, u32>(0),
             TryKind::A32U8 => try_info::<Al32, u8>(Al32([0; 32])),
+            TryKind::U8U8 => try_info::<u8, u8>(0),
+            TryKind::B5U8 => try_info::<[u8; 5], u8>([0; 5]),
+            TryKind::U16U8 => try_info::<u16, u8>(0),
         }
     }
 }
@@ -521,8 +527,11 @@ where
         match k {
             TryKind::U64U8 => go!(u64, u8, 0x1122334455667788, 7),
             TryKind::U8U64 => go!(u8, u64, 9, 0x8877665544332211),
-            TryKind::U32U32 => unreachable!(),
+            TryKind::U32U32 => go!(u32, u32, 0x11223344, 0x55667788),
             TryKind::A32U8 => go!(Al32, u8, Al32([0x5A; 32]), 3),
+            TryKind::U8U8 => go!(u8, u8, 0x42, 7),
+            TryKind::B5U8 => go!([u8; 5], u8, [1, 2, 3, 4, 5], 9),
+            TryKind::U16U8 => go!(u16, u8, 0x1234, 5),
         }
     }
     fn x_family(&mut self, q: &FamReq, hook: &mut dyn FnMut(&dyn ScopeOps, FamEvent)) -> FamRes {
